@@ -595,6 +595,7 @@ class EPRSocket(abc.ABC):
                 time_unit=time_unit,
                 max_time=max_time,
                 basis_local=basis_local,
+                rotations_local=rotations_local,
                 random_basis_local=random_basis_local,
             )
         assert False
